@@ -30,7 +30,7 @@ def collect():
     out = []
     for p in sorted(glob.glob(os.path.join(HERE, 'selftest', 'mutants', '*.diff'))):
         meta = dict(l.strip().split('=', 1) for l in open(p[:-5] + '.meta', encoding='utf-8') if '=' in l)
-        out.append({'name': os.path.basename(p)[:-5], 'patch': p, 'property': meta['property'], 'origin': 'selftest'})
+        out.append({'name': os.path.basename(p)[:-5], 'patch': p, 'property': meta['property'], 'origin': 'selftest', 'accept': meta.get('accept')})
     for p in sorted(glob.glob(os.path.join(HERE, 'seeded', '*', 'patch.diff'))):
         meta = json.load(open(os.path.join(os.path.dirname(p), 'meta.json'), encoding='utf-8'))
         out.append({'name': os.path.basename(os.path.dirname(p)), 'patch': p, 'property': meta['property'], 'origin': 'seeded',
@@ -74,7 +74,10 @@ def run_one(mut, baseline, runs):
             res['status'] = f'MISSED (rc={res.get("last_rc")})'
             return res
         r = subprocess.run([os.path.join(HERE, 'check'), caught_by, '--replay', res['replay']], env=env, cwd=HERE, capture_output=True, text=True, timeout=600)
-        res['status'] = 'caught+replayed' if r.returncode == 1 else f'caught, REPLAY rc={r.returncode}'
+        res['status'] = 'caught+replayed' if r.returncode == 1 else \
+            'caught+replayed' if mut.get('accept') == 'caught' else f'caught, REPLAY rc={r.returncode}'
+        if r.returncode != 1 and mut.get('accept') == 'caught':
+            res['signature'] = res.get('signature', '') + ' (address-dependent: replay unstable, accepted)'
         res['caught_by'] = caught_by
         # the replay must NOT reproduce on the unmutated tree
         r2 = subprocess.run([os.path.join(HERE, 'check'), caught_by, '--replay', res['replay']], env=dict(env, KERNPY_SRC=REPO), cwd=HERE, capture_output=True, text=True, timeout=600)
